@@ -1,10 +1,199 @@
-/- Line-protocol driver for C15 (stub until the property's models exist). -/
+/-
+  Line-protocol driver for C15 (FRU inventory parsing).
+
+    enc <I> <C> <B> <P> <M>          -> ok <hex> <cov> <view> | illformed | bad-op
+         image description, see `parseImage`; <cov>: one digit per byte of the image:
+         0 not covered by a checksum, 1 covered, 2 covered and an info-area length byte
+    parse <vv> <kind> <hex>           -> ok <view> | <error tag>      Model.parseFru
+         vv = two flags (bcdBytesOnly, sixStrict), kind = b | a | l
+    tl <vv> <kind> <hex>              -> ok <field> | <error tag>     Model.tlString
+    area <vv> <kind> <c|b|p> <hex>    -> ok <slot> | <error tag>      Model.parseArea
+    mr <hex>                          -> ok <slot> | <error tag>      Model.parseMulti
+    hdr <hex>                         -> ok <header> | <error tag>    Model.parseHeader
+    sums <hex>                        -> 0 | 1                        Spec.checksumsOk
+    date <minutes>                    -> y m d h mi                   Spec.dateOfMinutes
+-/
 import PyIpmi.Base.Proto
-open PyIpmi.Proto
+import PyIpmi.Spec.FruFormat
+import PyIpmi.Model.FruParse
+open PyIpmi PyIpmi.Fru PyIpmi.Proto
+
+/-! ### printing views -/
+
+def showField (f : FieldView) : String :=
+  s!"{f.ftype}.{f.length}.{toHex f.raw}.{natList f.str}"
+
+def showFields (sep : String) (l : List FieldView) : String :=
+  if l.isEmpty then "-" else sep.intercalate (l.map showField)
+
+def showArea (a : AreaView) : String :=
+  s!"{a.version},{a.length},{a.b2},{a.minutes};{showFields ";" a.fields};{showFields "|" a.custom}"
+
+def showSlot {α} (f : α → String) : Slot α → String
+  | .absent => "n"
+  | .empty => "e"
+  | .parsed a => f a
+
+def b01 (b : Bool) : String := if b then "1" else "0"
+
+def showRec : RecView → String
+  | .unknown t v e l raw => s!"U.{t}.{v}.{b01 e}.{l}.{toHex raw}"
+  | .picmg t e l raw m p v => s!"P.{t}.{b01 e}.{l}.{toHex raw}.{m}.{p}.{v}"
+  | .power t e l raw m p v c => s!"W.{t}.{b01 e}.{l}.{toHex raw}.{m}.{p}.{v}.{c}"
+
+def showRecs (l : List RecView) : String :=
+  if l.isEmpty then "-" else "|".intercalate (l.map showRec)
+
+def showHeader (h : HeaderView) : String :=
+  s!"{h.version},{h.internalOff},{h.chassisOff},{h.boardOff},{h.productOff},{h.multiOff}"
+
+def showView (v : FruView) : String :=
+  let h := match v.header with
+    | none => "n"
+    | some h => showHeader h
+  s!"H:{h} C:{showSlot showArea v.chassis} B:{showSlot showArea v.board} P:{showSlot showArea v.product} M:{showSlot showRecs v.multi}"
+
+def showOutcome {α} (f : α → String) (o : Outcome α) : String :=
+  match o with
+  | .ok a => "ok " ++ f a
+  | e => e.tag
+
+/-! ### parsing image descriptions
+
+    I:n | I:<hex>
+    C:n | C:<type>,<pad>;<f>;<f>;<customs>
+    B:n | B:<lang>,<minutes>,<pad>;<f>×5;<customs>
+    P:n | P:<lang>,<pad>;<f>×7;<customs>
+    M:- | M:<rec>|<rec>…       rec = g.<type>.<hex> | p.<pid>.<ver>.<hex> | w.<ver>.<tenths>.<hex>
+    f = b<hex> | d<hex> | s<hex> | t<hex>       customs = - | f|f|…
+-/
+
+def parseFieldTok (s : String) : Option Field := do
+  let h ← ofHex (s.drop 1).toString
+  if s.startsWith "b" then some (.binary h)
+  else if s.startsWith "d" then some (.bcdPlus h)
+  else if s.startsWith "s" then some (.ascii6 h)
+  else if s.startsWith "t" then some (.text8 h)
+  else none
+
+def parseCustoms (s : String) : Option (List Field) :=
+  if s == "-" then some [] else (s.splitOn "|").mapM parseFieldTok
+
+def parseNats (s : String) : Option (List Nat) := (s.splitOn ",").mapM String.toNat?
+
+def stripTag (tag s : String) : Option String :=
+  if s.startsWith tag then some (s.drop tag.length).toString else none
+
+def parseChassis (s : String) : Option (Option Chassis) := do
+  let r ← stripTag "C:" s
+  if r == "n" then return none
+  match r.splitOn ";" with
+  | [hd, f1, f2, cs] =>
+    match ← parseNats hd with
+    | [t, pad] => some (some ⟨t, ← parseFieldTok f1, ← parseFieldTok f2, ← parseCustoms cs, pad⟩)
+    | _ => none
+  | _ => none
+
+def parseBoard (s : String) : Option (Option Board) := do
+  let r ← stripTag "B:" s
+  if r == "n" then return none
+  match r.splitOn ";" with
+  | [hd, f1, f2, f3, f4, f5, cs] =>
+    match ← parseNats hd with
+    | [lang, minutes, pad] =>
+      some (some ⟨lang, minutes, ← parseFieldTok f1, ← parseFieldTok f2, ← parseFieldTok f3,
+        ← parseFieldTok f4, ← parseFieldTok f5, ← parseCustoms cs, pad⟩)
+    | _ => none
+  | _ => none
+
+def parseProduct (s : String) : Option (Option Product) := do
+  let r ← stripTag "P:" s
+  if r == "n" then return none
+  match r.splitOn ";" with
+  | [hd, f1, f2, f3, f4, f5, f6, f7, cs] =>
+    match ← parseNats hd with
+    | [lang, pad] =>
+      some (some ⟨lang, ← parseFieldTok f1, ← parseFieldTok f2, ← parseFieldTok f3, ← parseFieldTok f4,
+        ← parseFieldTok f5, ← parseFieldTok f6, ← parseFieldTok f7, ← parseCustoms cs, pad⟩)
+    | _ => none
+  | _ => none
+
+def parseRecTok (s : String) : Option Record :=
+  match s.splitOn "." with
+  | ["g", t, h] => do some (.generic (← t.toNat?) (← ofHex h))
+  | ["p", pid, ver, h] => do some (.picmg (← pid.toNat?) (← ver.toNat?) (← ofHex h))
+  | ["w", ver, tenths, h] => do some (.power (← ver.toNat?) (← tenths.toNat?) (← ofHex h))
+  | _ => none
+
+def parseRecords (s : String) : Option (List Record) := do
+  let r ← stripTag "M:" s
+  if r == "-" then some [] else (r.splitOn "|").mapM parseRecTok
+
+def parseInternal (s : String) : Option (Option (List Nat)) := do
+  let r ← stripTag "I:" s
+  if r == "n" then some none else (ofHex r).map some
+
+def parseImage (i c b p m : String) : Option FruImage := do
+  some ⟨← parseInternal i, ← parseChassis c, ← parseBoard b, ← parseProduct p, ← parseRecords m⟩
+
+def covString (img : FruImage) (n : Nat) : String :=
+  String.ofList ((List.range n).map fun i =>
+    if covered img i then (if isAreaLengthByte img i then '2' else '1') else '0')
+
+/-! ### requests -/
+
+def parseVariant (s : String) : Option Variant :=
+  match s.toList with
+  | [a, b] => some ⟨a == '1', b == '1'⟩
+  | _ => none
+
+def parseKind (s : String) : Option InputKind :=
+  if s == "b" then some .bytes else if s == "a" then some .array else if s == "l" then some .list else none
+
+def parseAreaKind (s : String) : Option AreaKind :=
+  if s == "c" then some .chassis else if s == "b" then some .board else if s == "p" then some .product else none
 
 def handleC15 (line : String) : String :=
   match tokens line with
   | ["ping"] => "pong"
+  | ["enc", i, c, b, p, m] =>
+    match parseImage i c b p m with
+    | none => "bad-op"
+    | some img =>
+      if img.wf then
+        let bs := encodeFru img
+        s!"ok {toHex bs} {covString img bs.length} {showView (view img)}"
+      else "illformed"
+  | ["parse", vv, k, h] =>
+    match parseVariant vv, parseKind k, ofHex h with
+    | some v, some k, some bs => showOutcome showView (parseFru v k bs)
+    | _, _, _ => "bad-op"
+  | ["tl", vv, k, h] =>
+    match parseVariant vv, parseKind k, ofHex h with
+    | some v, some k, some bs => showOutcome showField (tlString v k bs)
+    | _, _, _ => "bad-op"
+  | ["area", vv, k, a, h] =>
+    match parseVariant vv, parseKind k, parseAreaKind a, ofHex h with
+    | some v, some k, some a, some bs => showOutcome (showSlot showArea) (parseArea v k a bs)
+    | _, _, _, _ => "bad-op"
+  | ["mr", h] =>
+    match ofHex h with
+    | some bs => showOutcome (showSlot showRecs) (parseMulti bs)
+    | none => "bad-op"
+  | ["hdr", h] =>
+    match ofHex h with
+    | some bs => showOutcome showHeader (parseHeader bs)
+    | none => "bad-op"
+  | ["sums", h] =>
+    match ofHex h with
+    | some bs => if checksumsOk bs then "1" else "0"
+    | none => "bad-op"
+  | ["date", m] =>
+    match m.toNat? with
+    | some m =>
+      let (y, mo, d, hh, mi) := dateOfMinutes m
+      s!"{y} {mo} {d} {hh} {mi}"
+    | none => "bad-op"
   | _ => "bad-op"
 
 def main : IO Unit := do
